@@ -15,7 +15,7 @@
    call (os.kill / setpriority / ioprio_set / prlimit / sched_setaffinity) with the incarnation that received it
    (None: the kernel answered ESRCH).  Objects also come from process_iter() and from psutil.Popen; a Popen whose
    child was already gone carries as ghost a negative token (never in the table): it is "not alive" from birth. *)
-From PV Require Import Proc.Spec Proc.Proofs Proc.ProofsIter.
+From PV Require Import Proc.Spec Proc.Live Proc.Proofs Proc.ProofsIter.
 
 (* the process is gone and the PID belongs to another process: NoSuchProcess, and no system call at all *)
 Theorem C01_no_effect_on_new_owner : forall h o s,
@@ -159,6 +159,61 @@ Theorem C01_process_iter_stale_branch_reached :
   /\ outcome_of (next (run ex_overlap) (EC (IterNext 0))) (EC (EqC 1 2)) = Val (RBool false).
 Proof. exact stale_branch_reached. Qed.
 Print Assumptions C01_process_iter_stale_branch_reached.
+
+(* ---- "with exactly the value asked for, for every setter argument" THROUGH THE C EXTENSION (Proc/Live.v: the C
+   conversions as functions on Z with their widths -- PyLong_AsLong, no narrowing; "i" for nice/ionice --, the
+   CPU_SET range test, the argument checks of _pslinux.py, the kernel's EINVAL / clamping).  [elig]: the CPUs the
+   process may use; [cur]: its state before the call. *)
+
+(* cpu_affinity([n]) for EVERY integer n: the mask becomes exactly {n} when n is a CPU the process may use;
+   otherwise ValueError and the mask is unchanged -- never another CPU *)
+Theorem C01_live_affinity_single_exact : forall elig cur n,
+  (forall c, In c elig -> 0 <= c < CPU_SETSIZE) ->
+  affinity_live elig cur [n] = (if memz n elig then (Val RNone, [n]) else (Exc ValueError, cur)).
+Proof. exact affinity_single_exact. Qed.
+Print Assumptions C01_live_affinity_single_exact.
+
+(* in particular no wrap-around at the integer widths: k * 2^32 + c (k <> 0, so also c - 2^32, 2^40 + c) and
+   2^31 + c name no CPU, whatever eligible c they are congruent to *)
+Theorem C01_live_affinity_no_wraparound : forall elig cur c k,
+  (forall c, In c elig -> 0 <= c < CPU_SETSIZE) -> In c elig -> k <> 0 ->
+  affinity_live elig cur [k * 4294967296 + c] = (Exc ValueError, cur)
+  /\ affinity_live elig cur [2147483648 + c] = (Exc ValueError, cur).
+Proof. exact affinity_no_wraparound. Qed.
+Print Assumptions C01_live_affinity_no_wraparound.
+
+(* nice(v): a value the kernel accepts is set exactly; one that does not fit a C int is an OverflowError and
+   nothing changes (values in between are clamped by the kernel to -20..19, as setpriority(2) documents) *)
+Theorem C01_live_nice_exact : forall cur v,
+  (-20 <= v <= 19 -> nice_live cur v = (Val RNone, v))
+  /\ (v < -2147483648 \/ 2147483647 < v -> nice_live cur v = (Exc OverflowError, cur)).
+Proof. exact nice_exact. Qed.
+Print Assumptions C01_live_nice_exact.
+
+(* ionice(cls, v): accepted arguments (class 0..3, value 0..7, no value for classes 0 and 3) are set exactly;
+   every other pair of integers, of any size, is a ValueError and nothing changes *)
+Theorem C01_live_ionice_exact : forall cur cls v,
+  ionice_live cur cls v = (if ionice_ok cls v then (Val RNone, (cls, match v with Some n => n | None => 0 end))
+                           else (Exc ValueError, cur))
+  /\ (ionice_ok cls v = true -> 0 <= cls <= 3 /\ 0 <= match v with Some n => n | None => 0 end <= 7).
+Proof. intros cur cls v. split; [apply ionice_exact|apply ionice_ok_small]. Qed.
+Print Assumptions C01_live_ionice_exact.
+
+(* rlimit(res, (s, h)): a pair the caller may set is set exactly; beyond 64 bits OverflowError, soft > hard
+   ValueError, both with nothing changed *)
+Theorem C01_live_rlimit_exact : forall cur s h,
+  (0 <= s <= h -> h <= LONG_MAX -> rl_le h (snd cur) = true -> rlimit_live cur [s; h] = (Val RNone, (s, h)))
+  /\ (LONG_MAX < s \/ LONG_MAX < h -> rlimit_live cur [s; h] = (Exc OverflowError, cur))
+  /\ (0 <= h < s -> s <= LONG_MAX -> rlimit_live cur [s; h] = (Exc ValueError, cur)).
+Proof. exact rlimit_exact. Qed.
+Print Assumptions C01_live_rlimit_exact.
+
+(* the answers the harness demands of the implementation on a live process (lspec) are met by the model *)
+Theorem C01_live_model_meets_spec : forall elig st op,
+  (forall c, In c elig -> 0 <= c < CPU_SETSIZE) ->
+  match lspec elig st op with Some a => lstep elig st op = a | None => True end.
+Proof. exact lstep_meets_lspec. Qed.
+Print Assumptions C01_live_model_meets_spec.
 
 (* the pid attribute of an object is the PID its process was started under, and fits a pid_t *)
 Theorem C01_obj_pid_is_creation_pid : forall h o,
